@@ -154,7 +154,8 @@ func writeSitesOf(fn *ssa.Function, wv map[ssa.Value]bool) []*writeSite {
 				hit = true
 			}
 		}
-		if mc, ok := cc.Value.(*ssa.MakeClosure); ok {
+		// a closure called at once, or one kept in a (once-assigned) variable and called through it
+		if mc, ok := capturedLoad(cc.Value).(*ssa.MakeClosure); ok {
 			for _, b := range mc.Bindings {
 				if wv[b] {
 					hit = true
